@@ -15,7 +15,7 @@ while [ $# -gt 0 ]; do
   esac
 done
 mkdir -p "$OUT/hx"
-rsync -a --delete --exclude target /verif/hx/ "$OUT/hx/"
+rsync -a --delete --exclude target "${HX_SRC:-/verif/hx}/" "$OUT/hx/"
 sed -i "s#path = \"/repo/incremental-map\"#path = \"$REPO/incremental-map\"#; s#path = \"/repo\"#path = \"$REPO\"#" "$OUT/hx/Cargo.toml"
 cd "$OUT/hx"
 export CARGO_NET_OFFLINE=true
